@@ -1224,10 +1224,39 @@ func (c *Canonicalizer) NormalizeOperand(v ssa.Value, context ssa.Instruction) s
 		if name, exists := c.registerMap[v]; exists {
 			return name
 		}
-		return fmt.Sprintf("<func_ref:%s:%s>", operand.Name(), sanitizeType(operand.Signature))
+		return fmt.Sprintf("<func_ref:%s:%s>", funcRefName(operand, context), sanitizeType(operand.Signature))
 	default:
 		return c.normalizeValue(v)
 	}
+}
+
+// funcRefName names a referenced function independently of what the referring
+// function itself is called, so that renaming a recursive function or a function
+// containing function literals does not change its canonical form: a reference to
+// the function being canonicalized is "<self>", and a function literal (or the
+// enclosing function) of the same top-level function is named by its position
+// under that function.
+func funcRefName(fn *ssa.Function, context ssa.Instruction) string {
+	if context == nil || context.Parent() == nil {
+		return fn.Name()
+	}
+	cur := context.Parent()
+	if fn == cur {
+		return "<self>"
+	}
+	root := func(f *ssa.Function) *ssa.Function {
+		for f.Parent() != nil {
+			f = f.Parent()
+		}
+		return f
+	}
+	if r := root(cur); root(fn) == r {
+		if fn == r {
+			return "<outer>"
+		}
+		return "<lit" + strings.TrimPrefix(fn.Name(), r.Name()) + ">"
+	}
+	return fn.Name()
 }
 
 func packageQualifier(p *types.Package) string {
